@@ -7,6 +7,7 @@ import glob
 import hashlib
 import json
 import os
+import re
 import shutil
 import subprocess
 import sys
@@ -40,6 +41,8 @@ def base_env():
     env["CARGO_NET_OFFLINE"] = "true"
     env["LD_LIBRARY_PATH"] = os.path.join(sysroot(), "lib") + ":" + env.get("LD_LIBRARY_PATH", "")
     env["RUSTFLAGS"] = "-Awarnings"
+    # incremental compilation would replay cached query results and bypass the mir_built override
+    env["CARGO_INCREMENTAL"] = "0"
     # cargo check never links: skip the 8-minute C++ build of librocksdb/snappy
     env["ROCKSDB_LIB_DIR"] = "/nonexistent-raftlint"
     env["SNAPPY_LIB_DIR"] = "/nonexistent-raftlint"
@@ -148,6 +151,10 @@ def ensure_facts(fs="full", repo=REPO, log=sys.stderr):
             if nonce not in head:
                 shutil.rmtree(d, ignore_errors=True)
                 raise RuntimeError("raftlint: stale fact file for %s" % m)
+            mm = re.search(r'"body_owners":(\d+),"bodies_seen":(\d+)', head)
+            if not mm or mm.group(1) != mm.group(2):
+                shutil.rmtree(d, ignore_errors=True)
+                raise RuntimeError("raftlint: incomplete facts for %s (%s)" % (m, mm.groups() if mm else head[:80]))
             files[m] = os.path.basename(c[0])
         info["extract_wall_s"] = round(time.time() - t0, 1)
         json.dump({"files": files, "nonce": nonce, "info": info}, open(os.path.join(d, "COMPLETE.json"), "w"))
